@@ -22,13 +22,13 @@ pub fn def() -> PropDef {
 
 fn streams(t: Tier) -> Vec<StreamDef> {
     vec![
-        st("hostile", t.n(60_000, 3_000_000, 100, 20_000), false),
-        st("per_type", t.n(38 * 41 * 6, 38 * 41 * 40, 120, 38 * 41 * 6), true),
-        st("truncations", t.n(57 * 49, 57 * 49, 60, 57 * 49), true),
-        st("avp_lengths", t.n(7052, 7052, 60, 7052), true),
+        st("hostile", t.n(60_000, 3_000_000, 64, 20_000), false),
+        st("per_type", t.n(38 * 41 * 6, 38 * 41 * 40, 96, 38 * 41 * 6), true),
+        st("truncations", t.n(57 * 49, 57 * 49, 40, 57 * 49), true),
+        st("avp_lengths", t.n(7052, 7052, 40, 7052), true),
         st("flagwords", t.n(65536, 65536, 0, 65536), true),
         st("big", t.n(320, 8000, 0, 320), false),
-        st("reveal", t.n(20_000, 1_000_000, 80, 8_000), false),
+        st("reveal", t.n(20_000, 1_000_000, 32, 8_000), false),
     ]
 }
 
@@ -155,6 +155,12 @@ fn run(ctx: &mut Ctx) {
     match ctx.stream {
         "hostile" => {
             let (b, _) = wire::hostile(&mut ctx.rng);
+            if ctx.tier == Tier::Miri && b.len() > 400 {
+                // kilobyte inputs through five byte-at-a-time readers cost the interpreter a minute
+                // each; they are covered natively
+                ctx.rep.bucket("miri.skipped_large_input");
+                return;
+            }
             let o = if ctx.rng.chance(1, 9) { None } else { Some(SOpts::from_index(ctx.rng.below(8) as u8)) };
             judge_msg(ctx, &b, o);
             if b.len() > 12 && ctx.rng.bool() {
